@@ -79,8 +79,9 @@ type R2 struct {
 }
 
 // C16: the same calls on a world that was used and Reset and on a brand-new world. The control
-// calls agree; a query naming a relation target for a component its filter does not require depends on
-// the archetypes that the previous history left behind (known finding query-relation-on-foreign-component).
+// calls agree; a query naming a relation target for a component its filter does not require used to depend
+// on the archetypes that the previous history left behind (repaired by 69d7fda; the probe stays so that a
+// return of the divergence is reported).
 func TestFinding_C16_ResetWorldVsNewWorld(t *testing.T) {
 	used := ecs.NewWorld(2, 1)
 	idA := ecs.ComponentID[A](used)
